@@ -348,3 +348,209 @@ def mixedCall (g : Getter) : Call String :=
   { pos := g.names, kw := g.extras.map (fun e => (e.1, e.1)) }
 
 end KawinV.Forward
+
+/-!
+## Save / load HISTORIES in one process (GenericModel.save / load, kawin/GenericModel.py 48-72)
+
+`save(filename)` writes `toDict()` to the file `filename (+ '.npz')`, replacing whatever the file held;
+`load(filename)` reads THAT FILE (`np.load`) and hands its contents to `fromDict`.  Between the two there is
+nothing but the file system: a process is a list of live model objects and a file store  name → contents.
+-/
+namespace KawinV.SaveLoad
+
+/-- `if not filename.endswith('.npz'): filename += '.npz'` (the same line in `save` and in `load`) -/
+def npzName (f : String) : String := if ".npz".toList.isSuffixOf f.toList then f else f ++ ".npz"
+
+/-- the file system: the most recent write is at the head, reading takes the first match -/
+abbrev Store (α : Type) := List (String × Dict α)
+
+def Store.read? {α : Type} : Store α → String → Option (Dict α)
+  | [], _ => none
+  | (g, d) :: r, f => if g = f then some d else Store.read? r f
+
+def Store.write {α : Type} (st : Store α) (f : String) (d : Dict α) : Store α := (f, d) :: st
+
+/-- a process: the live model objects (the model under study first, then every model a file was loaded into),
+the files, and — ONLY for the variant `stepCached` below, the code has nothing of the kind — a read cache -/
+structure Proc (α : Type) where
+  models : List (State α)
+  files : Store α
+  cache : Store α := []
+
+/-- one call made from the user's script -/
+inductive Op (α : Type) where
+  /-- `model_i.solve(…)`: the object moves to some other state (any state: what solve does is not the subject) -/
+  | solve (i : Nat) (s' : State α)
+  /-- `model_i.save(file)` -/
+  | save (i : Nat) (file : String)
+  /-- `m = <freshly constructed model in state s0>; m.load(file)`; `m` joins the live models -/
+  | load (file : String) (s0 : State α)
+
+/-- `m.load(file)` on a freshly constructed model in state `s0`: `none` = no such file -/
+def loadFile {α : Type} (sp : Spec) (p : Proc α) (file : String) (s0 : State α) : Option (Except Err (State α)) :=
+  (p.files.read? (npzName file)).map (fun d => load sp d s0)
+
+def step {α : Type} (sp : Spec) (p : Proc α) : Op α → Proc α
+  | .solve i s' => { p with models := p.models.set i s' }
+  | .save i f =>
+    match p.models[i]? with
+    | some s => { p with files := p.files.write (npzName f) (save sp s) }
+    | none => p
+  | .load f s0 =>
+    match loadFile sp p f s0 with
+    | some (.ok s') => { p with models := p.models ++ [s'] }
+    | _ => p
+
+def run {α : Type} (sp : Spec) (p : Proc α) (ops : List (Op α)) : Proc α := ops.foldl (step sp) p
+
+/-- SPECIFICATION, read off the history backwards: the state the source model was in AT THE MOMENT OF THE LAST
+`save` to file `f` (`none`: the history never saved to that name).  `opsRev` is the history, last call first. -/
+def lastSaved {α : Type} (sp : Spec) (p : Proc α) (f : String) : (opsRev : List (Op α)) → Option (State α)
+  | [] => none
+  | .save i g :: before =>
+    if npzName g = npzName f then
+      match (run sp p before.reverse).models[i]? with
+      | some s => some s
+      | none => lastSaved sp p f before        -- `save` on an object that does not exist: not a call
+    else lastSaved sp p f before
+  | .solve _ _ :: before => lastSaved sp p f before
+  | .load _ _ :: before => lastSaved sp p f before
+
+/-- every outcome of a `load` call in the history, in order (what the driver reports) -/
+def loadOutcomes {α : Type} (sp : Spec) : Proc α → List (Op α) → List (Option (Except Err (State α)))
+  | _, [] => []
+  | p, .load f s0 :: r => loadFile sp p f s0 :: loadOutcomes sp (step sp p (.load f s0)) r
+  | p, op :: r => loadOutcomes sp (step sp p op) r
+
+/-! VARIANT (not the code): `load` keeps what it read in a cache keyed by file name and `save` does not
+invalidate it — "read every file only once". -/
+
+def loadFileCached {α : Type} (sp : Spec) (p : Proc α) (file : String) (s0 : State α) :
+    Option (Except Err (State α)) × Store α :=
+  match p.cache.read? (npzName file) with
+  | some d => (some (load sp d s0), p.cache)
+  | none =>
+    match p.files.read? (npzName file) with
+    | some d => (some (load sp d s0), p.cache.write (npzName file) d)
+    | none => (none, p.cache)
+
+def stepCached {α : Type} (sp : Spec) (p : Proc α) : Op α → Proc α
+  | .load f s0 =>
+    match loadFileCached sp p f s0 with
+    | (some (.ok s'), c) => { p with models := p.models ++ [s'], cache := c }
+    | (_, c) => { p with cache := c }
+  | op => step sp p op
+
+def runCached {α : Type} (sp : Spec) (p : Proc α) (ops : List (Op α)) : Proc α := ops.foldl (stepCached sp) p
+
+end KawinV.SaveLoad
+
+/-!
+## Fitting state of a surrogate (Surrogate.py: `train…` → `_fit…` → `self.kernel(xTrain, yTrain, **self.kernelKwargs)`,
+`_createInput`, `toJson` / `fromJson` → `_processSurrogateData`)
+
+A surrogate object holds (a) its kernel settings `kernelKwargs` (given to the constructor, shared by all quantities),
+(b) per quantity the stored training data, (c) per quantity the fitted kernel.  A fitted kernel is a function of
+exactly what its constructor was given: the rows of the training matrix and the settings AT THE TIME OF THE FIT; the
+model keeps those two things in place of SciPy's interpolator.  `fromJson` builds the data dictionaries from the
+file (identity, `json_roundtrip`) and refits every stored quantity in a FIXED order with the settings of the NEW
+object.  Two hooks stand for what the code does on the way and are the identity in the code:
+`Hooks.settings` — what assembling an input matrix of `cols` columns (`_createInput`) does to `kernelKwargs`;
+`Hooks.points`   — what `_fit…` does to the rows of the training matrix before the kernel is built.
+-/
+namespace KawinV.SurrogateFit
+
+/-- the quantities, in the order in which `_processSurrogateData` refits them (GeneralSurrogate: driving force,
+diffusivity; then BinarySurrogate: interfacial composition / MulticomponentSurrogate: curvature) -/
+inductive Q where
+  | drivingForce | diffusivity | interfacial | curvature
+  deriving DecidableEq, Repr
+
+def refitOrder : List Q := [.drivingForce, .diffusivity, .interfacial, .curvature]
+
+/-- `kernelKwargs` -/
+structure Settings where
+  kernel : String
+  normalize : Bool
+  deriving DecidableEq, Repr
+
+/-- stored training data of one quantity: an opaque payload (values, flags, phase), the rows of the training matrix,
+and the number of input columns that are not "single" (`_createInput` drops an axis with one distinct value) -/
+structure Train (δ π : Type) where
+  payload : δ
+  points : List π
+  cols : Nat
+
+/-- a fitted kernel = what the kernel constructor received -/
+structure Fit (δ π : Type) where
+  settings : Settings
+  payload : δ
+  nodes : List π
+
+structure Hooks (π : Type) where
+  settings : Settings → Nat → Settings
+  points : List π → List π
+
+/-- the code: `_createInput` only concatenates columns, `_fit…` hands the whole training matrix to the kernel -/
+def code (π : Type) : Hooks π := { settings := fun s _ => s, points := fun l => l }
+
+structure Surr (δ π : Type) where
+  settings : Settings
+  data : Q → Option (Train δ π)
+  models : Q → Option (Fit δ π)
+
+def empty (δ π : Type) (s0 : Settings) : Surr δ π := { settings := s0, data := fun _ => none, models := fun _ => none }
+
+def upd {β : Type} (f : Q → Option β) (q : Q) (v : Option β) : Q → Option β := fun x => if x = q then v else f x
+
+/-- `_fit<Q>(phase)`: nothing without data; `_createInput` raises when no axis is left (the old kernel, if any,
+stays); otherwise the kernel is built from the (hooked) rows with the (hooked) current settings -/
+def fitQ {δ π : Type} (h : Hooks π) (s : Surr δ π) (q : Q) : Surr δ π :=
+  match s.data q with
+  | none => s
+  | some t =>
+    if t.cols = 0 then s
+    else
+      let st := h.settings s.settings t.cols
+      { settings := st, data := s.data, models := upd s.models q (some { settings := st, payload := t.payload, nodes := h.points t.points }) }
+
+inductive Op (δ π : Type) where
+  /-- `train<Q>(…)`: the data are stored, then fitted -/
+  | train (q : Q) (t : Train δ π)
+  /-- a getter call on quantity `q`: a trained quantity assembles its input with `_createInput` -/
+  | query (q : Q)
+
+def stepS {δ π : Type} (h : Hooks π) (s : Surr δ π) : Op δ π → Surr δ π
+  | .train q t => fitQ h { s with data := upd s.data q (some t) } q
+  | .query q =>
+    match s.models q, s.data q with
+    | some _, some t => { s with settings := h.settings s.settings t.cols }
+    | _, _ => s
+
+def runS {δ π : Type} (h : Hooks π) (s : Surr δ π) (ops : List (Op δ π)) : Surr δ π := ops.foldl (stepS h) s
+
+/-- `toJson` then `fromJson` into a new object constructed with settings `s0` -/
+def rebuild {δ π : Type} (h : Hooks π) (s0 : Settings) (s : Surr δ π) : Surr δ π :=
+  refitOrder.foldl (fitQ h) { settings := s0, data := s.data, models := fun _ => none }
+
+/-- the last training of quantity `q` in a history (history given last call first) -/
+def lastTrained {δ π : Type} (q : Q) : (opsRev : List (Op δ π)) → Option (Train δ π)
+  | [] => none
+  | .train q' t :: before => if q' = q then some t else lastTrained q before
+  | .query _ :: before => lastTrained q before
+
+/-! VARIANTS (not the code) -/
+
+/-- `_createInput` switches `normalize` off in the surrogate's own settings when the input has a single column -/
+def flipOnOneAxis (π : Type) : Hooks π :=
+  { settings := fun s cols => if cols = 1 then { s with normalize := false } else s, points := fun l => l }
+
+/-- `_filter_points(inputs, outputs, tol)` on one input column: a row is dropped when a LATER row lies within an
+absolute distance `tol` (and is not identical) -/
+def dropClose (tol : Int) : List Int → List Int
+  | [] => []
+  | x :: r => if r.any (fun y => decide (x ≠ y) && decide ((x - y).natAbs ≤ tol.natAbs)) then dropClose tol r else x :: dropClose tol r
+
+def filterBeforeFit (tol : Int) : Hooks Int := { settings := fun s _ => s, points := dropClose tol }
+
+end KawinV.SurrogateFit
